@@ -45,6 +45,8 @@ def run_case(case, ctx):
     cs = common.load(case)
     if case["cfg"].get("load_endian"):
         ctx.count("endian-switched-after-load")
+    if case["cfg"].get("grow") and libside._grow_plan(case["defs"], case["cfg"]):
+        ctx.count("root-declared-short-used-then-completed-through-add_field")
     T = cs.Root
     s = io.BytesIO(data)
     obj = lib(T, s)
@@ -107,10 +109,10 @@ def run_case(case, ctx):
 def stages(tier):
     n = 1 if tier == "quick" else 15
     return [
-        HypStage("constructive", lambda: gens.input_case(gens.opts(long_strings=True, null_structs=True, multidim_dyn=True, bits_char=True, bits_odd=True, wide_bits=True)), examples=(1200 if tier == "quick" else 6000), shards=8 if tier == "quick" else 16),
+        HypStage("constructive", lambda: gens.input_case(gens.opts(long_strings=True, null_structs=True, multidim_dyn=True, bits_char=True, bits_odd=True, wide_bits=True), cfg_kw={"flip": True}), examples=(1200 if tier == "quick" else 6000), shards=8 if tier == "quick" else 16),
         HypStage("raw", raw_case, examples=(600 if tier == "quick" else 4000), shards=4 if tier == "quick" else 8),
         # wider and deeper definitions than the main search draws: up to 14 members per level, depth 3, fixed counts up to 20
-        HypStage("large", lambda: gens.input_case(gens.opts(max_fields=14, max_depth=3, max_len=20, null_structs=True, multidim_dyn=True, bits_char=True, bits_odd=True, wide_bits=True)), examples=(150 if tier == "quick" else 2000), shards=4 if tier == "quick" else 8),
+        HypStage("large", lambda: gens.input_case(gens.opts(max_fields=14, max_depth=3, max_len=20, null_structs=True, multidim_dyn=True, bits_char=True, bits_odd=True, wide_bits=True), cfg_kw={"flip": True}), examples=(150 if tier == "quick" else 2000), shards=4 if tier == "quick" else 8),
         EnumStage("triples", _triples, shards=4, exhaustive=False, scope="every ordered triple of 17 field kinds (incl. enum-, char- and 24-bit-backed bit-fields) x {packed, aligned}, compiled reader, one patterned input each"),
     ]
 
